@@ -863,8 +863,34 @@ def main(chk):
         "run): in every LALR state with a completed operator item the action on each of the 30 operator lookahead tokens is the "
         "one PrecSpec.cred prescribes; the %left/%right lines equal the documented table; y.go is what goyacc generates.")
 
+    # blanks around infix operators are layout: `a+b*c`, `\\-1`, `1-\\2` group like `a + b * c`, `\\ - 1`, `1 - \\2` (operand atoms:
+    # names, int literals, argument variables; operators that begin with `!` are left out because `b!` is a name)
+    import itertools
+    sp_reqs, sp_meta = [], []
+    tops = [o for o in [x[0] for x in INFIX] if not SYM[o].startswith("!")]
+    for o1, o2 in itertools.product(tops, repeat=2):
+        for at in (("a", "b", "c"), ("\\", "1", "\\2"), ("1", "x", "2"), ("\\1", "\\", "3"), ("\\", "12", "\\")):
+            sp = "%s %s %s %s %s" % (at[0], SYM[o1], at[1], SYM[o2], at[2])
+            ti = "%s%s%s%s%s" % (at[0], SYM[o1], at[1], SYM[o2], at[2])
+            sp_reqs += [{"src": sp}, {"src": ti}]
+            sp_meta.append((sp, ti))
+    sp_outs = harness("parse", sp_reqs, shards=NCPU)
+    sp_fail = []
+    for k, (sp, ti) in enumerate(sp_meta):
+        oa, ob = sp_outs[2 * k], sp_outs[2 * k + 1]
+        chk.count(("spacing", ti), True)
+        ra = oa.get("ast") if oa.get("ok") else "<syntax error>"
+        rb = ob.get("ast") if ob.get("ok") else "<syntax error>"
+        if ra != rb:
+            sp_fail.append((sp, ti, ra, rb))
+
     # ---- decide
     failing = 0
+    if sp_fail:
+        sp, ti, ra, rb = sp_fail[0]
+        failing += 1
+        chk.fail("`%s` parses as %s but the same expression without blanks, `%s`, parses as %s (%d such pairs)" % (sp, ra, ti, rb, len(sp_fail)),
+                 {"harness": "parse", "src": ti, "impl": rb, "spec": ra, "spaced": sp, "pairs_failing": len(sp_fail)}, klass="C02:spacing")
     for (name, err) in errors:
         chk.fail("correspondence shard %s did not evaluate: %s" % (name, err),
                  {"correspondence": "Prec.PanExpr.render vs parser.Parse", "shard": name}, no_input=True)
